@@ -27,6 +27,44 @@ type half struct {
 	rclosed bool  // reader closed: writer sees EPIPE
 	err     error // reset
 	cap     int   // 0 = unbounded; otherwise writers block while len(buf) >= cap
+
+	// latency > 0: written data (and the writer's close) become visible to the reader
+	// only after the latency has passed. Writes never sleep (a goroutine sleeping inside
+	// Write while holding one of the caller's mutexes would stall a synctest bubble as
+	// soon as another goroutine contends for that mutex).
+	latency time.Duration
+	pending []chunk
+}
+
+type chunk struct {
+	data []byte
+	eof  bool
+	at   time.Time
+}
+
+// deliver moves every pending chunk that is due into the readable buffer. h.mu held.
+func (h *half) deliver() {
+	now := time.Now()
+	for len(h.pending) > 0 && !h.pending[0].at.After(now) {
+		c := h.pending[0]
+		h.pending = h.pending[1:]
+		if c.eof {
+			h.wclosed = true
+		} else if !h.rclosed {
+			h.buf = append(h.buf, c.data...)
+		}
+	}
+	h.cond.Broadcast()
+}
+
+func (h *half) enqueue(c chunk) {
+	c.at = time.Now().Add(h.latency)
+	h.pending = append(h.pending, c)
+	time.AfterFunc(h.latency, func() {
+		h.mu.Lock()
+		h.deliver()
+		h.mu.Unlock()
+	})
 }
 
 func newHalf(capacity int) *half {
@@ -39,7 +77,6 @@ func newHalf(capacity int) *half {
 type Conn struct {
 	r, w          *half
 	local, remote net.Addr
-	latency       time.Duration
 
 	dmu          sync.Mutex
 	rdl, wdl     time.Time
@@ -72,8 +109,9 @@ func Pipe(o Options) (*Conn, *Conn) {
 		o.RemoteAddr = defaultB
 	}
 	ab, ba := newHalf(o.Capacity), newHalf(o.Capacity)
-	a := &Conn{r: ba, w: ab, local: o.LocalAddr, remote: o.RemoteAddr, latency: o.Latency}
-	b := &Conn{r: ab, w: ba, local: o.RemoteAddr, remote: o.LocalAddr, latency: o.Latency}
+	ab.latency, ba.latency = o.Latency, o.Latency
+	a := &Conn{r: ba, w: ab, local: o.LocalAddr, remote: o.RemoteAddr}
+	b := &Conn{r: ab, w: ba, local: o.RemoteAddr, remote: o.LocalAddr}
 	return a, b
 }
 
@@ -114,9 +152,6 @@ func (c *Conn) Read(p []byte) (int, error) {
 
 func (c *Conn) Write(p []byte) (int, error) {
 	c.Writes.Add(1)
-	if c.latency > 0 {
-		time.Sleep(c.latency)
-	}
 	h := c.w
 	h.mu.Lock()
 	defer h.mu.Unlock()
@@ -134,7 +169,10 @@ func (c *Conn) Write(p []byte) (int, error) {
 		if c.deadlineExceeded(false) {
 			return written, os.ErrDeadlineExceeded
 		}
-		if h.cap == 0 {
+		if h.latency > 0 {
+			h.enqueue(chunk{data: append([]byte(nil), p...)})
+			written = len(p)
+		} else if h.cap == 0 {
 			h.buf = append(h.buf, p...)
 			written = len(p)
 		} else if room := h.cap - len(h.buf); room > 0 {
@@ -178,7 +216,11 @@ func (c *Conn) Close() error {
 	}
 	c.dmu.Unlock()
 	c.w.mu.Lock()
-	c.w.wclosed = true
+	if c.w.latency > 0 {
+		c.w.enqueue(chunk{eof: true})
+	} else {
+		c.w.wclosed = true
+	}
 	c.w.cond.Broadcast()
 	c.w.mu.Unlock()
 	c.r.mu.Lock()
@@ -192,7 +234,11 @@ func (c *Conn) Close() error {
 // CloseWrite half-closes: the peer reads EOF, this end can still read.
 func (c *Conn) CloseWrite() error {
 	c.w.mu.Lock()
-	c.w.wclosed = true
+	if c.w.latency > 0 {
+		c.w.enqueue(chunk{eof: true})
+	} else {
+		c.w.wclosed = true
+	}
 	c.w.cond.Broadcast()
 	c.w.mu.Unlock()
 	return nil
